@@ -238,6 +238,21 @@ def write_evidence(pid, tier, seed, coverage, wall, violations, assumptions=None
     if os.path.realpath(REPO) != "/repo":      # runs against a scratch copy (seeded changes) never touch the committed evidence
         edir = os.path.join(BUILD, "evidence-scratch")
     os.makedirs(edir, exist_ok=True)
+    # keep the evidence schema-valid whatever a property module put into coverage
+    if "exhaustive" in coverage and not isinstance(coverage["exhaustive"], bool):
+        coverage["exhaustive_scope"] = coverage["exhaustive"]
+        coverage["exhaustive"] = False
+    for k in ("evaluations", "distinct_nontrivial", "obligations", "discharged", "states", "transitions",
+              "traces_validated_against_impl", "programs", "disagreements_checked"):
+        if k in coverage and not isinstance(coverage[k], int):
+            try:
+                coverage[k] = int(coverage[k])
+            except Exception:
+                coverage[k + "_raw"] = coverage.pop(k)
+    if "samples" in coverage and not isinstance(coverage["samples"], list):
+        coverage["samples"] = [coverage["samples"]]
+    if "trusted_base" in coverage:
+        coverage["trusted_base"] = [str(x) for x in coverage["trusted_base"]]
     ev = dict(property_id=pid, tier=tier, seed=seed, level=level, coverage=coverage,
               assumptions=assumptions or [], wall_s=round(wall, 2), violations=violations)
     with open(os.path.join(edir, pid + ".json"), "w") as f:
